@@ -11,10 +11,11 @@ For each assertion / declaration:
   satisfies what was emitted (instance of the invariant, C01);
 * `…_runtime`: the relation the run-time check applies.
 
-Findings on the pinned tree (statement at full strength is false): `assert_positive(bits=n)`
-enforces the GLOBAL bitlength in-circuit while the run-time check uses `n`
-(C03-assert-positive-width); `assert_range(lo, hi)` rejects `value = hi` at run time but accepts it
-in-circuit (C03-assert-range-upper).  Both are stated exactly as the model (= the code) behaves.
+Two findings of the pinned tree were repaired by `fix:` commits and the model follows the repaired
+code: `assert_positive(bits=n)` enforced the GLOBAL bitlength in-circuit while the run-time check
+used `n` (C03-assert-positive-width); `assert_range(lo, hi)` rejected `value = hi` at run time but
+accepted it in-circuit (C03-assert-range-upper).  Their former counterexamples are kept below as
+regression witnesses with the opposite outcome.
 -/
 namespace Pysnark
 variable {p : ℕ} [Fact p.Prime] {s s' : St} {w : Wire → Int} {u : Unit}
@@ -61,39 +62,40 @@ theorem C03_toBits_width {x : LinComb} {bits : Option Nat} {bs : List LinComb} (
   obtain ⟨hl, S, hS, hSe, -⟩ := toBits_sound hp hg hx h h1 hw
   exact ⟨hl, S, hS, hSe⟩
 
-/-- `assert_positive(bits)`: what the circuit enforces is the GLOBAL bitlength, whatever `bits`
-(finding C03-assert-positive-width: the run-time check uses `bits`) -/
-theorem C03_assertPositive_partial {x : LinComb} {bits : Option Nat} (hp : s.p = p) (hg : s.guard = none)
+/-- `assert_positive(bits)`: the width enforced in-circuit is the requested one — the same the
+run-time check uses (finding C03-assert-positive-width, repaired: before, the circuit used the
+global bitlength) -/
+theorem C03_assertPositive_width {x : LinComb} {bits : Option Nat} (hp : s.p = p) (hg : s.guard = none)
     (hx : x.lc.WF) (h : assertPositive x bits s = .ok (u, s')) (h1 : w .one = 1) (hw : NewSat s s' w) :
-    InRange p s.bitlength (ev p w x.lc) := assertPositive_sound hp hg hx h h1 hw
+    InRange p (bits.getD s.bitlength) (ev p w x.lc) := assertPositive_sound hp hg hx h h1 hw
 
-/-- closed counterexample: with bitlength 8, `PrivVal(5).assert_positive(bits=2)` is REJECTED at
-run time (5 needs 3 bits) but with error checks off the emitted circuit is the 8-bit one and is
-satisfied by the recorded witness: run-time relation ≠ in-circuit relation -/
-theorem C03_cex_assert_positive_width :
+/-- regression witness of the repaired finding: with bitlength 8, `PrivVal(5).assert_positive(bits=2)`
+is rejected at run time, and with error checks off the emitted circuit (now 2 bits wide: 3
+constraints) is NOT satisfied by the recorded witness -/
+theorem C03_assert_positive_width_regression :
     let s0 : St := St.init 97 8 8
     (match (do let x ← privVal 5; assertPositive x (some 2)) s0 with | .error .assertion => true | _ => false) = true ∧
     (match (do let x ← privVal 5; assertPositive x (some 2)) { s0 with ignoreErrors := true } with
-      | .ok (_, s1) => s1.cons.length == 9 && s1.cons.all (fun c =>
-          (LC.eval s1.assign c.1 * LC.eval s1.assign c.2.1 - LC.eval s1.assign c.2.2) % 97 == 0)
+      | .ok (_, s1) => s1.cons.length == 3 && !(s1.cons.all (fun c =>
+          (LC.eval s1.assign c.1 * LC.eval s1.assign c.2.1 - LC.eval s1.assign c.2.2) % 97 == 0))
       | _ => false) = true := by
   decide +kernel
 
-/-- `assert_range(lo, hi)` in-circuit: `x − lo ≥ 0` and `hi − x ≥ 0` — so `x = hi` is accepted
-(finding C03-assert-range-upper: the run-time check rejects `x ≥ hi`) -/
-theorem C03_assertRange_partial {x lo hi : LinComb} (hp : s.p = p) (hg : s.guard = none)
+/-- `assert_range(lo, hi)` in-circuit: `x − lo ≥ 0` and `hi − x − 1 ≥ 0`, i.e. the half-open range
+the run-time check applies (finding C03-assert-range-upper, repaired: before, `x = hi` was accepted) -/
+theorem C03_assertRange_unsat {x lo hi : LinComb} (hp : s.p = p) (hg : s.guard = none)
     (hx : x.lc.WF) (hlo : lo.lc.WF) (hhi : hi.lc.WF)
     (h : assertRange x lo hi s = .ok (u, s')) (h1 : w .one = 1) (hw : NewSat s s' w) :
-    InRange p s.bitlength (ev p w x.lc - ev p w lo.lc) ∧ InRange p s.bitlength (ev p w hi.lc - ev p w x.lc) :=
+    InRange p s.bitlength (ev p w x.lc - ev p w lo.lc) ∧ InRange p s.bitlength (ev p w hi.lc - ev p w x.lc - 1) :=
   assertRange_sound hp hg hx hlo hhi h h1 hw
 
-theorem C03_cex_assert_range_upper :
+theorem C03_assert_range_upper_regression :
     let s0 : St := St.init 97 4 8
     (match (do let x ← privVal 2; assertRange x (LinComb.const 1) (LinComb.const 2)) s0 with
       | .error .assertion => true | _ => false) = true ∧
     (match (do let x ← privVal 2; assertRange x (LinComb.const 1) (LinComb.const 2)) { s0 with ignoreErrors := true } with
-      | .ok (_, s1) => s1.cons.all (fun c =>
-          (LC.eval s1.assign c.1 * LC.eval s1.assign c.2.1 - LC.eval s1.assign c.2.2) % 97 == 0)
+      | .ok (_, s1) => !(s1.cons.all (fun c =>
+          (LC.eval s1.assign c.1 * LC.eval s1.assign c.2.1 - LC.eval s1.assign c.2.2) % 97 == 0))
       | _ => false) = true := by
   decide +kernel
 
